@@ -240,13 +240,16 @@ private:
     }
 
     while (n) {
+      // elements of the current inner range in front of the position
       difference_type k =
-          std::distance(m_inner_begin_fn(*m_outer), this->base_reference()) + 1;
-      if (k == 1) {
+          std::distance(m_inner_begin_fn(*m_outer), this->base_reference());
+      if (k == 0) {
+        // first element of an inner range: step into the previous non-empty
+        // one
         decrement();
         --n;
       } else if (k < n) {
-        seek_backward();
+        std::advance(this->base_reference(), -k);
         n -= k;
       } else {
         std::advance(this->base_reference(), -n);
